@@ -228,6 +228,91 @@ def _spawn_failure_turns_client_away(server):
     return all(out)
 
 
+def _pool_survives_peer_base_exception(server):
+    """(a) the live `_serve_clients` (the body of a pool worker) run in this thread on a stand-in connection whose `poll()`
+    raises SystemExit the first time (what an exception reply naming it does) and ends the run the second time: true iff the
+    worker loop survives and the connection is served again; (b) the live `Server.accept` with an `_accept_method` raising a
+    SystemExit that carries `_remote_tb` (what vinegar rebuilds) must come back normally, and one WITHOUT it (a local
+    sys.exit) must propagate"""
+    import logging
+    import rpyc
+    quiet = logging.getLogger("rpycverif.gen.silent")
+    if not quiet.handlers:
+        quiet.addHandler(logging.NullHandler())
+    quiet.propagate = False
+    try:
+        srv = server.ThreadPoolServer(rpyc.VoidService, hostname="127.0.0.1", port=0, auto_register=False, logger=quiet)
+    except OSError as ex:
+        raise Inexpressible("cannot instantiate ThreadPoolServer: %s" % ex)
+    real = srv.listener
+    try:
+        calls = []
+
+        class Conn(object):
+            closed = False
+
+            def poll(self, *a, **k):
+                calls.append(1)
+                if len(calls) == 1:
+                    raise SystemExit("named by the peer")
+                srv.active = False
+                raise EOFError("gone")
+
+            def close(self):
+                pass
+
+            def fileno(self):
+                return 7
+        srv.fd_to_conn[7] = Conn()
+        srv._add_inactive_connection = lambda fd: None
+        srv.active = True
+        srv._active_connection_queue.put(7)
+        real_sleep = server.time.sleep
+        server.time.sleep = lambda s: None
+        try:
+            try:
+                srv._serve_clients()
+                worker = len(calls) == 2
+            except BaseException:  # noqa
+                worker = False
+        finally:
+            server.time.sleep = real_sleep
+        # (b)
+        class Sock(object):
+            def setblocking(self, flag):
+                pass
+
+            def fileno(self):
+                return 7
+
+            def close(self):
+                pass
+
+        class Listener(object):
+            def accept(self):
+                return Sock(), ("127.0.0.1", 1)
+        remote = SystemExit("named by the peer")
+        remote._remote_tb = "tb"
+        res = []
+        for exc in (remote, SystemExit("local")):
+            srv.listener = Listener()
+            srv.active = True
+
+            def failing(sock, _e=exc):
+                raise _e
+            srv._accept_method = failing
+            try:
+                srv.accept()
+                res.append("back")
+            except SystemExit:
+                res.append("raised")
+            except Exception as ex:  # noqa
+                raise Inexpressible("Server.accept raised %r" % (ex,))
+        return worker and res == ["back", "raised"]
+    finally:
+        real.close()
+
+
 def gen_server():
     from rpyc.core import consts
     from rpyc.utils import server
@@ -279,6 +364,10 @@ def gen_server():
           "(RuntimeError from spawn(), OSError from os.fork()), closing that client's socket and forgetting it?  Measured on",
           "the live `Server.accept` with stand-ins -/",
           "def spawnFailureTurnsClientAway : Bool := %s" % ("true" if _spawn_failure_turns_client_away(server) else "false")]
+    L += ["", "/-- does the pool survive an exception the PEER names that is a BaseException (SystemExit, ...): the live worker",
+          "loop `_serve_clients` keeps running and serves the connection again, `Server.accept` comes back when",
+          "`_accept_method` raises one rebuilt by vinegar (`_remote_tb`) - and still lets a local SystemExit through -/",
+          "def poolSurvivesPeerBaseException : Bool := %s" % ("true" if _pool_survives_peer_base_exception(server) else "false")]
     L += ["", "end Rpyc.Gen.Srv", ""]
     return "\n".join(L)
 
